@@ -995,6 +995,25 @@ void op_remove_logger(World& W, int wi, bool blocking)
   }
 }
 
+// C17: a removal that is still pending (the backend completes it in its next idle pass) while the same thread logs through
+// another logger and flushes: the sinks of the surviving loggers "keep working" -- written and flushed when flush_log() returns
+void op_remove_then_flush(World& W)
+{
+  if (W.in_poll) return;
+  int valid = 0;
+  for (auto const& l : W.loggers) if (l.valid) ++valid;
+  if (valid < 2) return;
+  int wi = pick_worker(W);
+  if (wi < 0) wi = op_start_thread(W);
+  if (wi < 0 || worker_busy(W, wi)) return;
+  op_remove_logger(W, wi, false);
+  if (W.r->failed || worker_busy(W, wi)) return;
+  op_log(W, wi, false, 0, -1, -1, true);
+  if (W.r->failed || worker_busy(W, wi)) return;
+  W.r->label("flush_while_a_removal_is_pending");
+  op_flush(W, wi, false, 0, -1);
+}
+
 void op_drop_sink_ref(World& W)
 {
   std::vector<int> v;
